@@ -148,6 +148,45 @@ pub fn run(short: bool) -> Result<serde_json::Value, String> {
         d.sort();
         check("nested_points", r.violations.is_empty() && d == vec![0, 1, 2, 3, 4, 99], format!("arrival points {:?} execs {}", d, r.stats.executions))?;
     }
+    // 8. fairness: two threads that yield to each other must not starve a third one under any
+    //    explored schedule (Musuvathi-Qadeer constraints): the program terminates, no horizon.
+    {
+        let mut o = Opts::default();
+        o.horizon = 400;
+        let s = scen("fair_relay", o, vec![
+            th("a", |s| { while s.y.load(Ordering::SeqCst) == 0 { s.r[0].fetch_add(1, Ordering::SeqCst); signal_hook_registry::verif::thread::yield_now(); } }),
+            th("b", |s| { while s.y.load(Ordering::SeqCst) == 0 { s.r[1].fetch_add(1, Ordering::SeqCst); signal_hook_registry::verif::thread::yield_now(); } }),
+            th("c", |s| { s.x.fetch_add(1, Ordering::SeqCst); s.x.fetch_add(1, Ordering::SeqCst); s.y.store(1, Ordering::SeqCst); }),
+        ], |_| 0);
+        let r = explore(&s, &cfg(Some(if short { 1 } else { 2 })))?;
+        check("fair_relay_terminates", r.violations.is_empty() && r.stats.executions > 3, format!("{:?} execs {}", r.violations.first().map(|v| &v.message), r.stats.executions))?;
+    }
+    // 9. private-location reduction: same set of outcomes with fewer executions, and a location
+    //    that turns out to be shared is learned (restart) instead of being skipped.
+    {
+        struct Arr { v: Vec<AtomicUsize>, out: AtomicUsize }
+        let mk = |reduce: bool| -> Scenario<Arc<Arr>> {
+            let mut o = Opts::default();
+            o.reduce = reduce;
+            Scenario {
+                name: if reduce { "reduce_on".into() } else { "reduce_off".into() },
+                opts: o,
+                signals: vec![libc::SIGUSR1],
+                setup: Box::new(|| Arc::new(Arr { v: (0..12).map(|_| AtomicUsize::new(0)).collect(), out: AtomicUsize::new(0) })),
+                threads: vec![
+                    ThreadSpec { name: "scan", body: Box::new(|s: &Arc<Arr>| { let mut acc = 0; for k in 0..12 { acc = acc * 2 + s.v[k].load(Ordering::SeqCst); } s.out.store(acc, Ordering::SeqCst); }), nest_signals: vec![], max_nest: 0 },
+                    ThreadSpec { name: "set", body: Box::new(|s: &Arc<Arr>| { s.v[3].store(1, Ordering::SeqCst); s.v[9].store(1, Ordering::SeqCst); }), nest_signals: vec![], max_nest: 0 },
+                ],
+                finish: Box::new(|s, _e| Ok(s.out.load(Ordering::SeqCst) as u64)),
+                monitor: None,
+            }
+        };
+        let off = explore(&mk(false), &cfg(None))?;
+        let on = explore(&mk(true), &cfg(None))?;
+        let same = off.stats.digests == on.stats.digests;
+        check("reduction_equivalent", same && on.stats.executions < off.stats.executions && on.shared_locations == 2 && off.violations.is_empty() && on.violations.is_empty(),
+            format!("outcomes off {:?} on {:?}; executions off {} on {}; shared learned {} restarts {}", off.stats.digests.len(), on.stats.digests.len(), off.stats.executions, on.stats.executions, on.shared_locations, on.reduction_restarts))?;
+    }
     let _ = Summary::clone;
     Ok(serde_json::Value::Array(report))
 }
